@@ -7,6 +7,7 @@ import Pdt.Driver.Codec
 import Pdt.Driver.ProgCodec
 import Pdt.Model.Resolve
 import Pdt.Model.Verbs
+import Pdt.Model.Ops
 import Pdt.Gen.OpTable
 import Pdt.Gen.Casts
 
@@ -104,6 +105,23 @@ def handle (j : Json) : Except String String := do
   | "lca" =>
       let args ← (← (← j.getObjVal? "args").getArr?).toList.mapM Codec.dtypeOfJson
       pure (lcaText (lcaType args))
+  | "ew" =>
+      -- element-wise operator on explicit values: {"cmd":"ew","op":..,"args":[{"lit":..}|{"float":..}, …]}
+      let op ← j.getObjValAs? String "op"
+      let args ← (← (← j.getObjVal? "args").getArr?).toList.mapM (fun a => do
+        let (v, _) ← Codec.litOfJson a
+        pure v)
+      pure (Ops.ew op args).toText
+  | "agg" =>
+      let op ← j.getObjValAs? String "op"
+      let args ← (← (← j.getObjVal? "args").getArr?).toList.mapM (fun a => do
+        let (v, _) ← Codec.litOfJson a
+        pure v)
+      pure (if op == "count_star" then (Val.int args.length).toText else (Ops.agg op args).toText)
+  | "cast" =>
+      let (v, _) ← Codec.litOfJson (← j.getObjVal? "arg")
+      let t ← Codec.dtypeOfJson (← j.getObjVal? "to")
+      pure (Ops.castVal v t).toText
   | "program" =>
       let b ← j.getObjValAs? String "backend"
       let r ← runProgram (backendOf b) (← j.getObjVal? "program")
